@@ -4,16 +4,21 @@ import OZ.Model.Rwa
 Driver for C04 (RWA gates). `op`: runs the model OZ.Rwa on an op line and prints the model's
 observation in the harness' format. `mon`: the monitor — evaluates the property's conclusion
 directly on the IMPLEMENTATION's observation lines (it keeps the previous observation as the
-observed pre-state and never calls the model's transition functions):
+observed pre-state and a ghost registry of compliance modules built from the accepted
+add_module / remove_module calls; it never calls the model's transition functions):
 
   * every accepted transfer / transfer_from had all gates open in the observed pre-state
-    (not paused, neither party frozen, amount <= balance - frozen, both identities ok, compliance
-    allows); every accepted mint had a verified recipient and compliance approval;
+    (not paused, neither party frozen, amount <= balance - frozen, both identities ok, and EVERY
+    compliance module registered for CanTransfer approves according to its scripted verdict);
+    every accepted mint had a verified recipient and the approval of EVERY CanCreate module;
   * 0 <= frozen <= balance for every account after every op;
   * forced_transfer / burn leave frozen' = min(frozen, balance - amount) and touch nobody else's;
   * recover_balance moves the whole balance, the partial freeze and the address freeze to the
     registered recovery target and nowhere else;
-  * the compliance mock's call log shows exactly the owed notification, nothing on failure;
+  * the compliance contract's call log shows exactly the owed notification, nothing on failure,
+    and each notification reached each module registered for that hook exactly once (and no
+    other module); an accepted holder move / mint consulted each registered verdict module once;
+  * the registry getter agrees with the ghost registry;
   * C01 for this flavour: supply = sum of balances, no negative balance, failed call = no change,
     replay of the emitted mint / burn / transfer events reproduces every balance.
 -/
@@ -21,14 +26,16 @@ namespace OZ.Drv.C04
 open OZ.Drv OZ.Rwa OZ.Host
 
 def N : Nat := 5
+def K : Nat := 3
 def MAX_TTL : Nat := 200000
 
-/-- configuration of the mock compliance contract -/
+/-- scripted verdict of one mock compliance module -/
 structure Comp where
   tx : Bool
   create : Bool
   cap : Int
   blocked : List Nat
+  deriving BEq
 
 def Comp.default : Comp := ⟨true, true, I128_MAX, []⟩
 
@@ -40,38 +47,55 @@ def Comp.canCreate (c : Comp) (t : Nat) (a : Int) : Bool :=
 structure M where
   cfg : Cfg
   s : State
-  comp : Comp
+  comps : List Comp
 
 def initM (label : String) : M :=
   let ws := words label
   let mt := (kvNat? ws "min_temp").getD 1
   let st := (kvNat? ws "start").getD 100
   let ad := (kvNat? ws "admin").getD 0
-  { cfg := ⟨mt, MAX_TTL⟩, s := init st ad, comp := Comp.default }
+  { cfg := ⟨mt, MAX_TTL⟩, s := init st ad, comps := List.replicate K Comp.default }
 
 def b01 (b : Bool) : String := if b then "1" else "0"
 
-/-- (authorizing addresses, model operation, new mock configuration) -/
-def parseOp (m : M) (ws : List String) : Option (List Nat × Op × Comp) :=
+def hookOf : Nat → Hook
+  | 0 => .transferred
+  | 1 => .created
+  | 2 => .destroyed
+  | 3 => .canTransfer
+  | _ => .canCreate
+
+def hookIx : Hook → Nat
+  | .transferred => 0
+  | .created => 1
+  | .destroyed => 2
+  | .canTransfer => 3
+  | .canCreate => 4
+
+def setAt {α} (l : List α) (i : Nat) (v : α) : List α := l.mapIdx (fun j x => if j = i then v else x)
+
+/-- (authorizing addresses, model operation, new module scripts) -/
+def parseOp (m : M) (ws : List String) : Option (List Nat × Op × List Comp) :=
   match ws with
   | "rwa" :: "advance" :: rest => do
     let n ← kvNat? rest "n"
-    pure ([], .advance n, m.comp)
+    pure ([], .advance n, m.comps)
   | "rwa" :: "env_id" :: rest => do
     let a ← kvNat? rest "a"
     let b ← kvNat? rest "b"
-    pure ([], .envIdOk a (b = 1), m.comp)
+    pure ([], .envIdOk a (b = 1), m.comps)
   | "rwa" :: "env_rec" :: rest => do
     let a ← kvNat? rest "a"
     let t := (kv? rest "t").bind String.toNat?
-    pure ([], .envRecTarget a t, m.comp)
-  | "rwa" :: "env_comp" :: rest => do
+    pure ([], .envRecTarget a t, m.comps)
+  | "rwa" :: "env_mod" :: rest => do
+    let i ← kvNat? rest "m"
     let tx ← kvNat? rest "tx"
     let cr ← kvNat? rest "create"
     let cap ← kvInt? rest "cap"
     let bl := natList ((kv? rest "block").getD "-")
     let c : Comp := ⟨tx = 1, cr = 1, cap, bl⟩
-    pure ([], .envCompliance c.canTransfer c.canCreate, c)
+    pure ([], .envModule i c.canTransfer c.canCreate, setAt m.comps i c)
   | "rwa" :: kind :: rest => do
     let a := natList ((kv? rest "a").getD "-")
     let amt ← kvInt? rest "amt"
@@ -91,8 +115,12 @@ def parseOp (m : M) (ws : List String) : Option (List Nat × Op × Comp) :=
       | "set_frozen", [x, op] => some (Op.setAddressFrozen x (b = 1) op)
       | "pause", [op] => some (Op.pause op)
       | "unpause", [op] => some (Op.unpause op)
+      | "add_module", [md, op] => some (Op.addModule (hookOf lu) md op)
+      | "remove_module", [md, op] => some (Op.removeModule (hookOf lu) md op)
+      | "bind", [op] => some (Op.bindToken op)
+      | "unbind", [op] => some (Op.unbindToken op)
       | _, _ => none
-    pure (auth, op, m.comp)
+    pure (auth, op, m.comps)
   | _ => none
 
 def showBaseEvent : Fungible.Event → String
@@ -109,6 +137,8 @@ def showEv : Ev → String
   | .recoverySuccess o n => s!"recovered:{o}:{n}"
   | .paused => "paused"
   | .unpaused => "unpaused"
+  | .moduleAdded h m => s!"madd:{hookIx h}:{m}"
+  | .moduleRemoved h m => s!"mrem:{hookIx h}:{m}"
 
 def showNote : Note → String
   | .transferred f t a => s!"transferred:{f}:{t}:{a}"
@@ -123,9 +153,20 @@ def showIdCall : IdCall → String
   | .verify a => s!"verify:{a}"
   | .target a => s!"target:{a}"
 
-def semi (l : List String) : String := if l.isEmpty then "-" else ";".intercalate l
+def showModCall : ModCall → String
+  | .canTransfer f t a => s!"can_transfer:{f}:{t}:{a}"
+  | .canCreate t a => s!"can_create:{t}:{a}"
+  | .onTransfer f t a => s!"on_transfer:{f}:{t}:{a}"
+  | .onCreated t a => s!"on_created:{t}:{a}"
+  | .onDestroyed f a => s!"on_destroyed:{f}:{a}"
 
-def showState (s : State) (c : Comp) : String :=
+def semi (l : List String) : String := if l.isEmpty then "-" else ";".intercalate l
+def dots (l : List Nat) : String := if l.isEmpty then "-" else ".".intercalate (l.map toString)
+
+def showComp (c : Comp) : String :=
+  s!"{b01 c.tx}:{b01 c.create}:{if c.cap = I128_MAX then "max" else toString c.cap}:{dots c.blocked}"
+
+def showState (s : State) (cs : List Comp) : String :=
   let idx := List.range N
   let bals := idx.map (fun i => toString (s.base.bal i))
   let al := idx.flatMap (fun o => idx.filterMap (fun sp =>
@@ -135,32 +176,37 @@ def showState (s : State) (c : Comp) : String :=
   let ft := idx.map (fun i => toString (s.frozen i))
   let id := idx.map (fun i => b01 (s.idOk i))
   let rct := idx.map (fun i => match s.recTarget i with | some t => toString t | none => "-")
-  let bl := if c.blocked.isEmpty then "-" else ".".intercalate (c.blocked.map toString)
-  s!"sup={s.base.supply} bal={",".intercalate bals} allow={semi al} paused={b01 s.paused} af={",".intercalate af} ft={",".intercalate ft} id={",".intercalate id} rec={",".intercalate rct} comp={b01 c.tx}:{b01 c.create}:{c.cap}:{bl}"
+  let mods := (List.range 5).map (fun h => dots (s.mods (hookOf h)))
+  s!"sup={s.base.supply} bal={",".intercalate bals} allow={semi al} paused={b01 s.paused} af={",".intercalate af} ft={",".intercalate ft} id={",".intercalate id} rec={",".intercalate rct} bound={b01 s.bound} mods={"/".intercalate mods} mcfg={"/".intercalate (cs.map showComp)}"
 
 def isEnv : Op → Bool
-  | .advance _ | .envIdOk _ _ | .envRecTarget _ _ | .envCompliance _ _ => true
+  | .advance _ | .envIdOk _ _ | .envRecTarget _ _ | .envModule _ _ _ => true
   | _ => false
+
+/-- the calls received by the modules, grouped by module (the harness reads one log per module) -/
+def showModCalls (l : List (Nat × ModCall)) : List String :=
+  (List.range K).flatMap (fun m => (l.filter (fun x => x.1 = m)).map (fun x => s!"{m}:{showModCall x.2}"))
 
 /-- one op line through the model: new state and the observation line -/
 def stepLine (m : M) (line : String) : M × String :=
   match parseOp m (words line) with
   | none => (m, "bad-op")
-  | some (auth, op, comp') =>
+  | some (auth, op, comps') =>
     match applyRet m.cfg m.s auth op with
     | .ok (s', r) =>
       let evs := (s'.events.drop m.s.events.length).map showEv
       let idv := (s'.idCalls.drop m.s.idCalls.length).map showIdCall
       let cq := (s'.compQueries.drop m.s.compQueries.length).map showQuery
       let cn := (s'.notes.drop m.s.notes.length).map showNote
+      let ml := showModCalls (s'.modCalls.drop m.s.modCalls.length)
       let dem := if isEnv op then "-" else showList toString ((op.required).mergeSort (· ≤ ·))
       let ret := match op with
         | .recover _ _ _ => if r then "true" else "false"
         | _ => "-"
-      ({ m with s := s', comp := comp' },
-        s!"ok ret={ret} {showState s' comp'} now={s'.base.now} ev={semi evs} idv={semi idv} cq={semi cq} cn={semi cn} dem={dem}")
+      ({ m with s := s', comps := comps' },
+        s!"ok ret={ret} {showState s' comps'} now={s'.base.now} ev={semi evs} idv={semi idv} cq={semi cq} cn={semi cn} ml={semi ml} dem={dem}")
     | .error _ =>
-      (m, s!"err ret=- {showState m.s m.comp} now={m.s.base.now} ev=- idv=- cq=- cn=- dem=-")
+      (m, s!"err ret=- {showState m.s m.comps} now={m.s.base.now} ev=- idv=- cq=- cn=- ml=- dem=-")
 
 /-! ### the monitor (implementation side) -/
 
@@ -175,19 +221,22 @@ structure Obs where
   ft : List Int
   id : List Bool
   rct : List (Option Nat)
-  comp : Comp
+  bound : Bool
+  mods : List (List Nat)
+  mcfg : List Comp
   evs : List (List String)
   cn : List String
+  ml : List String
   dem : List Nat
 
 def boolList (s : String) : List Bool := (s.splitOn ",").map (· = "1")
+def dotList (s : String) : List Nat := if s = "-" then [] else (s.splitOn ".").filterMap String.toNat?
 
 def parseComp (s : String) : Option Comp :=
   match s.splitOn ":" with
   | [tx, cr, cap, bl] => do
-    let cap ← cap.toInt?
-    let blocked := if bl = "-" then [] else (bl.splitOn ".").filterMap String.toNat?
-    pure ⟨tx = "1", cr = "1", cap, blocked⟩
+    let cap ← if cap = "max" then some I128_MAX else cap.toInt?
+    pure ⟨tx = "1", cr = "1", cap, dotList bl⟩
   | _ => none
 
 def parseObs (line : String) : Option Obs :=
@@ -200,35 +249,42 @@ def parseObs (line : String) : Option Obs :=
     let id := boolList ((kv? rest "id").getD "")
     let rct := (((kv? rest "rec").getD "").splitOn ",").map String.toNat?
     let paused ← kvNat? rest "paused"
-    let comp ← (kv? rest "comp").bind parseComp
+    let bound ← kvNat? rest "bound"
+    let mods := (((kv? rest "mods").getD "").splitOn "/").map dotList
+    let mcfg ← (((kv? rest "mcfg").getD "").splitOn "/").mapM parseComp
     let evS := (kv? rest "ev").getD "-"
     let evs := if evS = "-" then [] else (evS.splitOn ";").map (·.splitOn ":")
     let cnS := (kv? rest "cn").getD "-"
     let cn := if cnS = "-" then [] else cnS.splitOn ";"
+    let mlS := (kv? rest "ml").getD "-"
+    let ml := if mlS = "-" then [] else mlS.splitOn ";"
     let dem := natList ((kv? rest "dem").getD "-")
-    if bal.length ≠ N ∨ ft.length ≠ N ∨ af.length ≠ N ∨ id.length ≠ N ∨ rct.length ≠ N then none
+    if bal.length ≠ N ∨ ft.length ≠ N ∨ af.length ≠ N ∨ id.length ≠ N ∨ rct.length ≠ N ∨ mods.length ≠ 5
+        ∨ mcfg.length ≠ K then none
     else pure { ok := tag = "ok", ret := (kv? rest "ret").getD "-", sup, bal, allow := (kv? rest "allow").getD "-",
-                paused := paused = 1, af, ft, id, rct, comp, evs, cn, dem }
+                paused := paused = 1, af, ft, id, rct, bound := bound = 1, mods, mcfg, evs, cn, ml, dem }
   | _ => none
 
 structure Mon where
   admin : Nat
   prev : Obs
   replay : List Int            -- balances reconstructed from the emitted events
+  reg : List (List Nat)        -- ghost registry: per hook the modules added and not removed, in order
 
 def zeroObs : Obs :=
   { ok := true, ret := "-", sup := 0, bal := List.replicate N 0, allow := "-", paused := false,
     af := List.replicate N false, ft := List.replicate N 0, id := List.replicate N true,
-    rct := List.replicate N none, comp := Comp.default, evs := [], cn := [], dem := [] }
+    rct := List.replicate N none, bound := true, mods := List.replicate 5 [],
+    mcfg := List.replicate K Comp.default, evs := [], cn := [], ml := [], dem := [] }
 
 def initMon (label : String) : Mon :=
-  { admin := (kvNat? (words label) "admin").getD 0, prev := zeroObs, replay := List.replicate N 0 }
+  { admin := (kvNat? (words label) "admin").getD 0, prev := zeroObs, replay := List.replicate N 0,
+    reg := List.replicate 5 [] }
 
 def gi (l : List Int) (i : Nat) : Int := l.getD i 0
 def gb (l : List Bool) (i : Nat) : Bool := l.getD i false
 
 def addAt (l : List Int) (i : Nat) (d : Int) : List Int := l.mapIdx (fun j x => if j = i then x + d else x)
-def setAt {α} (l : List α) (i : Nat) (v : α) : List α := l.mapIdx (fun j x => if j = i then v else x)
 
 def replayEv (b : List Int) (ev : List String) : List Int :=
   match ev with
@@ -240,15 +296,23 @@ def replayEv (b : List Int) (ev : List String) : List Int :=
     | _, _, _ => b
   | _ => b
 
+/-- the registered CanTransfer modules (ghost registry) that reject, by their scripted verdict in
+the observed pre-state -/
+def vetoes (reg : List (List Nat)) (p : Obs) (f t : Nat) (amt : Int) : List Nat :=
+  (reg.getD 3 []).filter (fun m => !((p.mcfg.getD m Comp.default).canTransfer f t amt))
+
+def createVetoes (reg : List (List Nat)) (p : Obs) (t : Nat) (amt : Int) : List Nat :=
+  (reg.getD 4 []).filter (fun m => !((p.mcfg.getD m Comp.default).canCreate t amt))
+
 /-- names of the gates that were closed in the observed pre-state `p` for a holder move -/
-def closedGates (p : Obs) (f t : Nat) (amt : Int) : List String :=
+def closedGates (reg : List (List Nat)) (p : Obs) (f t : Nat) (amt : Int) : List String :=
   (if p.paused then ["paused"] else []) ++
   (if gb p.af f then ["from_frozen"] else []) ++
   (if gb p.af t then ["to_frozen"] else []) ++
   (if amt > gi p.bal f - gi p.ft f then ["free_balance"] else []) ++
   (if gb p.id f then [] else ["from_identity"]) ++
   (if gb p.id t then [] else ["to_identity"]) ++
-  (if p.comp.canTransfer f t amt then [] else ["compliance"])
+  (vetoes reg p f t amt).map (fun m => s!"compliance_module_{m}")
 
 def first (l : List (Option String)) : Option String := l.findSome? id
 
@@ -259,6 +323,10 @@ def minimalUnfreeze (p o : Obs) (a : Nat) (amt : Int) : Bool :=
   let want := if gi p.ft a ≤ gi p.bal a - amt then gi p.ft a else gi p.bal a - amt
   o.ft == setAt p.ft a want
 
+/-- one call `c` to each module of `ms`, as the per-module logs show it (grouped by module) -/
+def fanOut (ms : List Nat) (c : String) : List String :=
+  (List.range K).filterMap (fun m => if ms.contains m then some s!"{m}:{c}" else none)
+
 def check (m : Mon) (opl obs : String) : Mon × Option String :=
   match parseObs obs with
   | none => (m, some s!"site=rwa.parse unparsable observation {obs}")
@@ -268,12 +336,20 @@ def check (m : Mon) (opl obs : String) : Mon × Option String :=
     let kind := (ws.drop 1).head?.getD ""
     let a := natList ((kv? ws "a").getD "-")
     let amt := (kvInt? ws "amt").getD 0
+    let lu := (kvNat? ws "lu").getD 0
     let a0 := a.getD 0 0
     let a1 := a.getD 1 0
     let a2 := a.getD 2 0
     let replay' := o.evs.foldl replayEv m.replay
-    let m' : Mon := { m with prev := o, replay := replay' }
-    let supervisory := ["mint", "burn", "forced_transfer", "recover", "freeze", "unfreeze", "set_frozen", "pause", "unpause"]
+    let reg := m.reg
+    -- ghost registry after this op
+    let reg' : List (List Nat) :=
+      if o.ok ∧ kind = "add_module" then setAt reg lu (reg.getD lu [] ++ [a0])
+      else if o.ok ∧ kind = "remove_module" then setAt reg lu ((reg.getD lu []).erase a0)
+      else reg
+    let m' : Mon := { m with prev := o, replay := replay', reg := reg' }
+    let supervisory := ["mint", "burn", "forced_transfer", "recover", "freeze", "unfreeze", "set_frozen", "pause",
+      "unpause", "add_module", "remove_module", "bind", "unbind"]
     let operator := a.getLast?.getD 0
     -- what the compliance contract must have been told
     let owed : List String :=
@@ -286,6 +362,28 @@ def check (m : Mon) (opl obs : String) : Mon × Option String :=
         | "burn" => [s!"destroyed:{a0}:{amt}"]
         | "recover" => if o.ret = "true" then [s!"transferred:{a0}:{a1}:{gi p.bal a0}"] else []
         | _ => []
+    -- what the modules registered for the notification hooks must have received (once each)
+    let owedHooks : List String :=
+      if ¬ o.ok then []
+      else match kind with
+        | "transfer" => fanOut (reg.getD 0 []) s!"on_transfer:{a0}:{a1}:{amt}"
+        | "transfer_from" => fanOut (reg.getD 0 []) s!"on_transfer:{a1}:{a2}:{amt}"
+        | "forced_transfer" => fanOut (reg.getD 0 []) s!"on_transfer:{a0}:{a1}:{amt}"
+        | "mint" => fanOut (reg.getD 1 []) s!"on_created:{a0}:{amt}"
+        | "burn" => fanOut (reg.getD 2 []) s!"on_destroyed:{a0}:{amt}"
+        | "recover" => if o.ret = "true" then fanOut (reg.getD 0 []) s!"on_transfer:{a0}:{a1}:{gi p.bal a0}" else []
+        | _ => []
+    -- the verdict modules an ACCEPTED holder move / mint must have consulted (all of them, once)
+    let owedVerdicts : List String :=
+      if ¬ o.ok then []
+      else match kind with
+        | "transfer" => fanOut (reg.getD 3 []) s!"can_transfer:{a0}:{a1}:{amt}"
+        | "transfer_from" => fanOut (reg.getD 3 []) s!"can_transfer:{a1}:{a2}:{amt}"
+        | "mint" => fanOut (reg.getD 4 []) s!"can_create:{a0}:{amt}"
+        | _ => []
+    let isHookCall (e : String) : Bool := ((e.splitOn ":").getD 1 "").startsWith "on_"
+    let gotHooks := o.ml.filter isHookCall
+    let gotVerdicts := o.ml.filter (fun e => !isHookCall e)
     -- expected balances after an accepted op, from the observed pre-state
     let move (f t : Nat) (x : Int) : List Int := addAt (addAt p.bal f (-x)) t x
     let expBal : List Int :=
@@ -300,16 +398,16 @@ def check (m : Mon) (opl obs : String) : Mon × Option String :=
     let fail : Option String := first [
       -- the gates, on the observed pre-state
       (if o.ok ∧ kind = "transfer" then
-        let g := closedGates p a0 a1 amt
+        let g := closedGates reg p a0 a1 amt
         orFail g.isEmpty s!"site=rwa.transfer.gate accepted although closed: {",".intercalate g}"
        else none),
       (if o.ok ∧ kind = "transfer_from" then
-        let g := closedGates p a1 a2 amt
+        let g := closedGates reg p a1 a2 amt
         orFail g.isEmpty s!"site=rwa.transfer_from.gate accepted although closed: {",".intercalate g}"
        else none),
       (if o.ok ∧ kind = "mint" then
-        orFail (gb p.id a0 && p.comp.canCreate a0 amt)
-          s!"site=rwa.mint.gate accepted although identity_ok={gb p.id a0} can_create={p.comp.canCreate a0 amt}"
+        orFail (gb p.id a0 && (createVetoes reg p a0 amt).isEmpty)
+          s!"site=rwa.mint.gate accepted although identity_ok={gb p.id a0} rejecting CanCreate modules={createVetoes reg p a0 amt}"
        else none),
       -- 0 <= frozen <= balance, always
       orFail ((List.range N).all (fun i => decide (0 ≤ gi o.ft i ∧ gi o.ft i ≤ gi o.bal i)))
@@ -345,15 +443,25 @@ def check (m : Mon) (opl obs : String) : Mon × Option String :=
       (if o.ok ∧ kind = "unfreeze" then orFail (amt ≥ 0 ∧ o.ft == addAt p.ft a0 (-amt)) "site=rwa.unfreeze.effect frozen amount not -amount" else none),
       -- exactly-once notification with the exact parties and amount
       orFail (o.cn == owed) s!"site=rwa.{kind}.notify compliance was told {o.cn}, owed {owed}",
-      -- operator policy of the harness token
+      -- ... which reaches exactly the modules registered for that hook, once each
+      orFail (gotHooks == owedHooks) s!"site=rwa.{kind}.fanout modules received {gotHooks}, owed {owedHooks}",
+      -- an accepted holder move / mint consulted every registered verdict module (once)
+      (if o.ok then orFail (gotVerdicts == owedVerdicts)
+        s!"site=rwa.{kind}.consulted verdict modules consulted {gotVerdicts}, registered {owedVerdicts}" else none),
+      -- the registry getter agrees with the accepted add / remove history
+      orFail (o.mods == reg') s!"site=rwa.compliance.registry registry reads {o.mods}, ghost registry {reg'}",
+      (if o.ok ∧ kind = "add_module" then orFail (!(reg.getD lu []).contains a0) "site=rwa.compliance.add a registered module was added again" else none),
+      (if o.ok ∧ kind = "remove_module" then orFail ((reg.getD lu []).contains a0) "site=rwa.compliance.remove an unregistered module was removed" else none),
+      -- operator policy of the harness contracts
       (if o.ok ∧ supervisory.contains kind then
         orFail (operator = m.admin ∧ o.dem.contains operator) s!"site=rwa.{kind}.operator accepted for operator {operator} (admin {m.admin}, demanded {o.dem})"
        else none),
       -- C01 for this flavour
       orFail (o.bal.sum = o.sup ∧ o.bal.all (· ≥ 0)) s!"site=rwa.sum total_supply={o.sup} balances={o.bal}",
       (if ¬ o.ok then
-        orFail (o.sup == p.sup && o.bal == p.bal && o.allow == p.allow && o.ft == p.ft && o.af == p.af && o.paused == p.paused)
-          "site=rwa.rollback a failed call changed supply, a balance, an allowance, a frozen amount, a freeze flag or the pause flag"
+        orFail (o.sup == p.sup && o.bal == p.bal && o.allow == p.allow && o.ft == p.ft && o.af == p.af && o.paused == p.paused
+                && o.bound == p.bound && o.mods == p.mods && o.ml.isEmpty)
+          "site=rwa.rollback a failed call changed supply, a balance, an allowance, a frozen amount, a freeze flag, the pause flag, the binding, the module registry or reached a module"
        else none),
       orFail (replay' == o.bal) s!"site=rwa.replay event replay gives {replay'} but balances are {o.bal}"
     ]
